@@ -23,7 +23,7 @@ theorem do_exactly_once (cfg : Cfg) (hc : cfg.code = doCode ∨ cfg.code = dcCod
     (∀ i, begunCount s i ≤ 1 ∧ (0 < begunCount s i → i < cfg.n)) ∧
     (s.ret ≠ none → noFailure s → s.callerCancelled = false →
       ∀ i, i < cfg.n → begunCount s i = 1 ∧ endedCount s i = 1) := by
-  have hs := code_sound hc
+  have hs : cfg.code.Sound := by pardo_sound hc
   constructor
   · intro i
     have hA := (inv1 hs h).A i
@@ -61,7 +61,7 @@ theorem do_exactly_once (cfg : Cfg) (hc : cfg.code = doCode ∨ cfg.code = dcCod
 theorem do_exactly_once_Do (cfg : Cfg) (hc : cfg.code = doCode) (hg : 1 ≤ cfg.gmp)
     (s : St) (h : Reach cfg s) (hret : s.ret ≠ none) :
     ∀ i, i < cfg.n → begunCount s i = 1 ∧ endedCount s i = 1 := by
-  have hs := code_sound (Or.inl hc)
+  have hs : cfg.code.Sound := by pardo_sound (Or.inl hc : cfg.code = doCode ∨ cfg.code = dcCode)
   have hm := (inv2 hs h).M (by rw [hc]; rfl)
   exact (do_exactly_once cfg (Or.inl hc) hg s h).2 hret hm.2.2.2.2.2 hm.2.1
 
@@ -70,21 +70,44 @@ example : ∃ s, Reach ⟨doCode, 2, 3, 8⟩ s ∧ s.ret ≠ none ∧ begunCount
   ⟨_, reach_of_run Reach.init (ls := [.fetch 0, .fetch 1, .begin 1, .begin 0, .fEnd 1 (.ok 7), .fetch 1, .begin 1,
       .fEnd 1 (.ok 8), .fEnd 0 (.ok 9), .fetch 0, .fetch 1, .ret]) rfl, by decide, by decide⟩
 
-/-- **Bounded.** In every reachable state the number of calls of `f` in progress is at most the
-number of workers, which is at most the requested parallelism (`GOMAXPROCS` when `P ≤ 0`). -/
+/-- **Bounded.** In every reachable state:
+
+1. `running s ≤ s.ws.length` — the calls of `f` in progress are at most the goroutines that call `f`. This
+   conjunct is *model shape*: the LTS gives every such goroutine one program counter, i.e. a goroutine runs
+   its calls one after another. What ties that shape to the source is the worker's control skeleton
+   (`forever{fetch; if … {return}; … call}`: `pskelDoWorker_tie`, `pskelDoContextWorker_tie`, and the
+   sequential loops `pskelDoSeq_tie`, `pskelDoContextSeq_tie`), named in the proof, plus conformance.
+2. `s.ws.length = nW cfg` and `nW cfg = if effPar cfg = 1 then 1 else (effPar cfg).toNat` — *content*: the number
+   of goroutines is the number of iterations of the spawn loop `for j := 0; j < parallelism; j++`, whose
+   `init`, condition and `post` clauses are regenerated (`spawnInit`, `spawnLoop`, `spawnPost`), run with the
+   clamped parallelism; the caller alone on the fast path `parallelism == 1`.
+3. `effPar cfg = min (reqPar cfg) n` and `(nW cfg : Int) ≤ max 1 (reqPar cfg)` — content: the second clamp
+   (`if parallelism > n { parallelism = n }`, guard, assigned variable and right-hand side regenerated).
+4. `reqPar cfg = if P ≤ 0 then GOMAXPROCS else P` — content: the first clamp's regenerated guard
+   `parallelism <= 0` and its regenerated body `parallelism = runtime.GOMAXPROCS(-1)` (`lowAssign`): with
+   `parallelism = 16` there, or with the assignment going to `n`, `Code.Sound` and hence this theorem fail.
+
+Together: never more than `max(1, parallelism)` calls at a time, `GOMAXPROCS` standing in for `parallelism ≤ 0`. -/
 theorem do_bound (cfg : Cfg) (hc : cfg.code = doCode ∨ cfg.code = dcCode) (s : St) (h : Reach cfg s) :
-    running s ≤ nW cfg ∧ (nW cfg : Int) ≤ max 1 (reqPar cfg) ∧
-      (reqPar cfg = if cfg.P ≤ 0 then (cfg.gmp : Int) else cfg.P) := by
-  have hs := code_sound hc
-  refine ⟨?_, ?_, reqPar_eq hs⟩
-  · have := (inv1 hs h).len
-    unfold running; rw [← this]; exact List.countP_le_length
-  · unfold nW
-    split
-    · omega
-    · rw [numWorkers_eq hs]
-      have := effPar_le_reqPar hs
-      omega
+    running s ≤ s.ws.length ∧
+    (s.ws.length = nW cfg ∧ nW cfg = if effPar cfg = 1 then 1 else (effPar cfg).toNat) ∧
+    (effPar cfg = min (reqPar cfg) cfg.n ∧ (nW cfg : Int) ≤ max 1 (reqPar cfg)) ∧
+    (reqPar cfg = if cfg.P ≤ 0 then (cfg.gmp : Int) else cfg.P) ∧
+    (running s : Int) ≤ max 1 (if cfg.P ≤ 0 then (cfg.gmp : Int) else cfg.P) := by
+  have hs : cfg.code.Sound := by pardo_sound hc
+  have hlen := (inv1 hs h).len
+  have hshape : running s ≤ s.ws.length :=
+    Juniper.Proofs.SkeletonPar.under (And.intro (And.intro Juniper.Proofs.SkeletonPar.pskelDoWorker_tie Juniper.Proofs.SkeletonPar.pskelDoSeq_tie)
+      (And.intro Juniper.Proofs.SkeletonPar.pskelDoContextWorker_tie Juniper.Proofs.SkeletonPar.pskelDoContextSeq_tie)) List.countP_le_length
+  have hnW : nW cfg = if effPar cfg = 1 then 1 else (effPar cfg).toNat := by
+    unfold nW; rw [hs.isSeq, numWorkers_eq hs]; simp
+  have hle : (nW cfg : Int) ≤ max 1 (reqPar cfg) := by
+    have := effPar_le_reqPar hs
+    rw [hnW]; split <;> omega
+  have hreq := reqPar_eq hs
+  refine ⟨hshape, ⟨hlen, hnW⟩, ⟨?_, hle⟩, hreq, ?_⟩
+  · rw [effPar_eq hs]; split <;> omega
+  · rw [← hreq]; omega
 
 /-- non-vacuity: `DoContext(ctx, 2, 3, f)` with two calls running at once -/
 example : ∃ s, Reach ⟨dcCode, 2, 3, 8⟩ s ∧ running s = 2 :=
@@ -99,7 +122,7 @@ theorem map_positional (cfg : Cfg) (hc : cfg.code = doCode ∨ cfg.code = dcCode
     (_hw : mapStructural = true ∧ mapContextStructural = true := by decide) :
     s.out.length = cfg.n ∧
     ∀ i, i < cfg.n → ∃ v, s.out[i]? = some (some v) ∧ (i, Res.ok v) ∈ s.ended ∧ endedCount s i = 1 := by
-  have hs := code_sound hc
+  have hs : cfg.code.Sound := by pardo_sound hc
   have h2 := inv2 hs h
   have h4 := inv4 hs h
   have h6 := inv6 hs h
@@ -140,7 +163,7 @@ began has returned (`Wait` returns only when every worker function has returned;
 effects is the happens-before edge of `WaitGroup`/`errgroup`, trusted). -/
 theorem do_barrier (cfg : Cfg) (hc : cfg.code = doCode ∨ cfg.code = dcCode) (s : St) (h : Reach cfg s)
     (hret : s.ret ≠ none) : running s = 0 ∧ ∀ i, endedCount s i = begunCount s i := by
-  have hs := code_sound hc
+  have hs : cfg.code.Sound := by pardo_sound hc
   have hD := (inv2 hs h).D hret
   constructor
   · have hr : running s ≤ cnt notDone s.ws := countP_le_cnt_notDone _ rfl s.ws
@@ -164,7 +187,7 @@ theorem doContext_error_is_returned_by_some_call_or_caller_ctx (cfg : Cfg)
     (∀ e, s.ret = some (some e) →
       (∃ k i, e = .f k ∧ (i, Res.err k) ∈ s.ended) ∨ (e = .ctxCaller ∧ s.callerCancelled = true)) ∧
     (s.ret = some none → noFailure s) := by
-  have hs := code_sound hc
+  have hs : cfg.code.Sound := by pardo_sound hc
   refine ⟨fun e he => (inv3 hs h).E3 e he, ?_⟩
   intro hret
   have h2 := inv2 hs h
@@ -188,36 +211,41 @@ example : ∃ s, Reach ⟨dcCode, 2, 3, 8⟩ s ∧ s.ret = some (some (.f 5)) :=
   ⟨_, reach_of_run Reach.init (ls := [.fetch 0, .fetch 1, .check 0, .check 1, .begin 0, .begin 1, .fEnd 1 (.err 5),
       .egDone 1, .fEnd 0 (.ok 1), .fetch 0, .check 0, .egDone 0, .ret]) rfl, by decide⟩
 
-/-- **Cancels the others.** Parallel path: as soon as a call has returned an error and its worker's
-errgroup bookkeeping has run (no worker is between the return of `f` and that bookkeeping), the
-context handed to the other calls is cancelled — and every call begun from then on is recorded as
-begun with a cancelled context. Sequential path (effective parallelism 1): after a failure no call
-begins at all. -/
+/-- **Cancels the others.** For every reachable state of `DoContext`:
+
+1. (parallel path, unconditional) once errgroup has recorded an error (`s.egErr ≠ none`) the context handed
+   to the calls is cancelled (`s.dCause ≠ none`) — in the model `egDone` does both in one step, which is the
+   trusted errgroup semantics "records the first error, then cancels" — and every call of `f` that begins
+   from then on is recorded as begun with a cancelled context;
+2. (parallel path) a failed call leaves no gap: when some call has returned an error, either errgroup has
+   recorded an error already (so 1. applies) or the worker in which a call failed is still at
+   `retErr (.f k)`, i.e. between the return of `f` and errgroup's bookkeeping, a step that is enabled
+   (`egDone`) and not up to the environment;
+3. (sequential path, effective parallelism 1) after a failure no call begins at all.
+
+There is no cancellation "at once": between the return of the failing call and the `egDone` step of its
+worker the others still see a live context (that window is in the model and in the real code). -/
 theorem doContext_cancels_others (cfg : Cfg) (hc : cfg.code = doCode ∨ cfg.code = dcCode)
-    (s : St) (h : Reach cfg s) (hf : hasFail s = true) :
-    (s.seq = false → cnt isRetErr s.ws = 0 →
-        s.dCause ≠ none ∧
+    (s : St) (h : Reach cfg s) :
+    (s.seq = false → s.egErr ≠ none →
+        s.dCause ≠ none ∧ ctxCancelled s = true ∧
         ∀ w s', step cfg s (.begin w) = some s' → ∃ i, s'.begun = s.begun ++ [⟨i, true⟩]) ∧
-    (s.seq = true → ∀ w s', step cfg s (.begin w) ≠ some s') := by
-  have hs := code_sound hc
+    (hasFail s = true → s.seq = false →
+        s.egErr ≠ none ∨ ∃ k w, s.ws[w]? = some (.retErr (.f k)) ∧ (step cfg s (.egDone w)).isSome = true) ∧
+    (hasFail s = true → s.seq = true → ∀ w s', step cfg s (.begin w) ≠ some s') := by
+  have hs : cfg.code.Sound := by pardo_sound hc
   have h2 := inv2 hs h
   have h4 := inv4 hs h
   have h7 := inv7 hs h
-  have hctx : cfg.code.ctxMode = true := by
-    cases hm : cfg.code.ctxMode with
-    | true => rfl
-    | false =>
-      have := (h2.M hm).2.2.2.2.2
-      rw [noFailure_iff] at this; simp [hf] at this
-  constructor
-  · intro hseq hno
-    have hdc : s.dCause ≠ none := by
-      rcases h4.F1 (Or.inl hf) with h' | h' | ⟨e, h'⟩
-      · exact h2.G hseq h'
-      · omega
-      · have := h7.R2 hseq _ h'
-        exact h2.G hseq (by rw [← this]; simp)
-    refine ⟨hdc, ?_⟩
+  have h8 := inv8 hs h
+  refine ⟨?_, ?_, ?_⟩
+  · intro hseq heg
+    have hdc : s.dCause ≠ none := h2.G hseq heg
+    have hctx : cfg.code.ctxMode = true := by
+      cases hm : cfg.code.ctxMode with
+      | true => rfl
+      | false => exact absurd (h2.M hm).2.2.1 heg
+    refine ⟨hdc, by simp [ctxCancelled, hseq, Option.isSome_iff_ne_none, hdc], ?_⟩
     intro w s' hstep
     simp only [step] at hstep
     split at hstep
@@ -226,7 +254,17 @@ theorem doContext_cancels_others (cfg : Cfg) (hc : cfg.code = doCode ∨ cfg.cod
       refine ⟨i, ?_⟩
       simp [hctx, ctxCancelled, hseq, Option.isSome_iff_ne_none, hdc]
     · simp at hstep
-  · intro hseq w s' hstep
+  · intro hf hseq
+    rcases h8.C hf with h' | h' | ⟨k, h'⟩
+    · exact Or.inl h'
+    · obtain ⟨k, hm⟩ := exists_retF_of_cnt h'
+      obtain ⟨w, hw⟩ := List.getElem?_of_mem hm
+      refine Or.inr ⟨k, w, hw, ?_⟩
+      simp only [step, hw, hseq]
+      cases s.egErr <;> simp
+    · have := h7.R2 hseq _ h'
+      exact Or.inl (by rw [← this]; simp)
+  · intro hf hseq w s' hstep
     have hlen := (inv1 hs h).len
     have hseq' := (inv1 hs h).seq
     have hS := h2.S hseq
@@ -247,17 +285,24 @@ theorem doContext_cancels_others (cfg : Cfg) (hc : cfg.code = doCode ∨ cfg.cod
 
 /-- non-vacuity: after index 1 failed and its worker is done, the other worker begins index 2 with a
 cancelled context (it had passed its `ctx.Err()` test before) -/
-example : ∃ s, Reach ⟨dcCode, 2, 4, 8⟩ s ∧ hasFail s = true ∧ s.seq = false ∧ cnt isRetErr s.ws = 0 ∧
+example : ∃ s, Reach ⟨dcCode, 2, 4, 8⟩ s ∧ hasFail s = true ∧ s.seq = false ∧ s.egErr ≠ none ∧
     startedCancelled s = 1 :=
   ⟨_, reach_of_run Reach.init (ls := [.fetch 0, .fetch 1, .check 0, .check 1, .begin 0, .begin 1, .fEnd 0 (.ok 1),
       .fetch 0, .check 0, .fEnd 1 (.err 5), .egDone 1, .begin 0]) rfl, by decide, by decide, by decide, by decide⟩
+
+/-- non-vacuity of the window of conjunct 2: call 1 has failed, errgroup has not recorded it yet (its worker
+is at `retErr (.f 5)`), the call still running sees a live context -/
+example : ∃ s, Reach ⟨dcCode, 2, 4, 8⟩ s ∧ hasFail s = true ∧ s.seq = false ∧ s.egErr = none ∧
+    s.ws[1]? = some (.retErr (.f 5)) ∧ ctxCancelled s = false ∧ running s = 1 :=
+  ⟨_, reach_of_run Reach.init (ls := [.fetch 0, .fetch 1, .check 0, .check 1, .begin 0, .begin 1, .fEnd 1 (.err 5)]) rfl,
+    by decide, by decide, by decide, by decide, by decide, by decide⟩
 
 /-- **No call after the return.** From a state in which the call has returned, the only possible
 step is the caller cancelling its own context: no worker moves, no call of `f` begins. -/
 theorem doContext_no_call_after_return (cfg : Cfg) (hc : cfg.code = doCode ∨ cfg.code = dcCode)
     (s : St) (h : Reach cfg s) (hret : s.ret ≠ none) (l : Label) (s' : St)
     (hstep : step cfg s l = some s') : l = .callerCancel ∧ s'.begun = s.begun ∧ s'.ws = s.ws := by
-  have hs := code_sound hc
+  have hs : cfg.code.Sound := by pardo_sound hc
   have hD := (inv2 hs h).D hret
   have key : ∀ (w : Nat) (pc : Pc), s.ws[w]? = some pc → notDone pc = true → False := by
     intro w pc hw hn
@@ -289,10 +334,10 @@ context is at most (number of workers) − 1 ≤ parallelism − 1 (and 0 as lon
 theorem doContext_at_most_Pminus1_start_cancelled (cfg : Cfg) (hc : cfg.code = doCode ∨ cfg.code = dcCode)
     (s : St) (h : Reach cfg s) (hlive : s.callerCancelled = false) :
     (startedCancelled s : Int) ≤ max 1 (reqPar cfg) - 1 ∧ (hasFail s = false → startedCancelled s = 0) := by
-  have hs := code_sound hc
+  have hs : cfg.code.Sound := by pardo_sound hc
   have ⟨hH⟩ := inv5 hs h
   have ⟨h0, h1⟩ := hH hlive
-  have hb := (do_bound cfg hc s h).2.1
+  have hb := (do_bound cfg hc s h).2.2.1.2
   have hlen := (inv1 hs h).len
   have h2 := inv2 hs h
   have h3 := inv3 hs h
